@@ -7,6 +7,7 @@ import (
 
 	"github.com/cedar-policy/cedar-go/internal/consts"
 	"github.com/cedar-policy/cedar-go/internal/extensions"
+	"github.com/cedar-policy/cedar-go/types"
 	"github.com/cedar-policy/cedar-go/x/exp/ast"
 )
 
@@ -148,13 +149,24 @@ func (n NodeValue) marshalCedar(buf *bytes.Buffer) {
 
 func marshalChildNode(thisNodePrecedence nodePrecedenceLevel, childAstNode ast.IsNode, buf *bytes.Buffer) {
 	childNode := astNodeToMarshalNode(childAstNode)
-	if thisNodePrecedence > childNode.precedenceLevel() {
+	if thisNodePrecedence > childNode.precedenceLevel() || (thisNodePrecedence == accessPrecedence && isNegativeLong(childAstNode)) {
 		buf.WriteRune('(')
 		childNode.marshalCedar(buf)
 		buf.WriteRune(')')
 	} else {
 		childNode.marshalCedar(buf)
 	}
+}
+
+// A negative integer is written with a unary minus, which binds looser than member access:
+// as the operand of an access or method call it needs parentheses (`(-1).foo`, not `-1.foo`).
+func isNegativeLong(n ast.IsNode) bool {
+	v, ok := n.(ast.NodeValue)
+	if !ok {
+		return false
+	}
+	l, ok := v.Value.(types.Long)
+	return ok && l < 0
 }
 
 func (n NodeTypeNot) marshalCedar(buf *bytes.Buffer) {
